@@ -33,6 +33,18 @@ def parseHs (t : String) : Option (List H) :=
     | '-' :: r => (String.ofList r.reverse).toNat?.map fun i => { id := i, verdict := false }
     | _ => none
 
+/-- "0+,2-s,5+s" → message-transforming handlers: `s` after the verdict = the handler stamps the message -/
+def parseHsT (t : String) : Option (List (HT Bytes)) :=
+  if t = "-" then some [] else
+  (t.splitOn ",").mapM fun x =>
+    let (cs, stamp) := match x.toList.reverse with
+      | 's' :: r => (r, true)
+      | r => (r, false)
+    match cs with
+    | '+' :: r => (String.ofList r.reverse).toNat?.map fun i => stampH i true stamp
+    | '-' :: r => (String.ofList r.reverse).toNat?.map fun i => stampH i false stamp
+    | _ => none
+
 def idsStr (l : List Nat) : String := ",".intercalate (l.map toString)
 
 def poolOp (args : List String) : Option String :=
@@ -43,6 +55,13 @@ def poolOp (args : List String) : Option String :=
       let r := handlerSend allH typedH (if ok = "1" then some [1] else none)
       some ("log " ++ idsStr r.1 ++ " | enq " ++ (if r.2.isSome then "1" else "0"))
     | _, _ => none
+  | ["outm", a, t, ok, d] =>
+    -- handlers that may stamp the message; the answer carries the transmitted bytes
+    match parseHsT a, parseHsT t, (match d.toList with | 'x' :: r => unhexAux r [] | _ => none) with
+    | some allH, some typedH, some data =>
+      let r := handlerSendT allH typedH data (fun m => if ok = "1" then some m else none)
+      some ("log " ++ idsStr r.1 ++ " | enq " ++ (match r.2 with | some b => "1 " ++ dBytes b | none => "0"))
+    | _, _, _ => none
   | ["in", a, t] =>
     match parseHs a, parseHs t with
     | some allH, some typedH => some ("log " ++ idsStr (handlerServe allH typedH))
